@@ -276,9 +276,22 @@ class PrimalSageCone(SetMembership):
         aux_c_vars = aff.column_stack(aux_c_vars)
         aux_c_vars = aux_c_vars[nonconst_locs, :]
         main_c_var = self.c[nonconst_locs]
+        if self.settings['sum_age_force_equality']:
+            # Equality can only be demanded at indices which some AGE vector can reach;
+            # at the remaining indices the requirement stays c[j] >= 0.
+            reached = np.zeros(self._m, dtype=bool)
+            for i in self.ech.U_I:
+                reached[i] = True
+                reached |= self.ech.covers[i]
+            order = np.concatenate([np.where(reached)[0], np.where(~reached)[0]])
+            aux_c_vars = aux_c_vars[order, :]
+            main_c_var = main_c_var[order]
+            K = [Cone('0', int(np.count_nonzero(reached)))]
+            if not np.all(reached):
+                K.append(Cone('+', int(np.count_nonzero(~reached))))
+        else:
+            K = [Cone('+', self._m)]
         A_vals, A_rows, A_cols, b = comp_aff.columns_sum_leq_vec(aux_c_vars, main_c_var, mat_offsets=True)
-        conetype = '0' if self.settings['sum_age_force_equality'] else '+'
-        K = [Cone(conetype, b.size)]
         return A_vals, A_rows, A_cols, b, K
 
     def variables(self):
